@@ -9,4 +9,18 @@ TEXT = {
                "alphabet. The helpers are pure functions of small inputs, so this reaches every branch combination; it is exploration, not proof.",
     level_note="Trusted: the reference resolver (harness/paths/paths.go), written from the property statement. Names longer than 4 random characters and lists longer than 8 are not generated.",
  ),
+ "C01": dict(
+    technique="property-based differential testing (rapid) of Marshal/Size/Unmarshal against an independent reference 9P2000 encoder, per message kind; native fuzzing of the decoder against the reference decoder",
+    design_ref="DESIGN.md section 4, C01",
+    level_text="Generated-input search over all 27 message kinds with boundary-biased field values; the oracle is byte equality with a reference encoder written from the manual, "
+               "which catches symmetric encode/decode errors a round-trip cannot. Sampled, not exhaustive: maximal lengths are reached only in the thorough tier.",
+    level_note="Trusted: harness/internal/refwire (independent encoder/decoder, shares no code with go-p9p). Pointer-typed messages inside Fcall are not generated.",
+ ),
+ "C04": dict(
+    technique="property-based testing (rapid) with structure-aware mutation of valid encodings + native coverage-guided fuzzing; oracle = no panic, measured allocation bound, decode/encode/decode stability",
+    design_ref="DESIGN.md section 4, C04",
+    level_text="Generated-input search over mutated valid encodings (every length/count field x hostile values, truncations, extensions, type bytes) and random bytes, for Unmarshal and DecodeDir; "
+               "panics are caught, allocation is measured per call. Exploration: cannot show absence of a hostile input outside the explored classes.",
+    level_note="Trusted: runtime.MemStats accounting; the chosen bound 256 KiB + 96*len as the reading of 'small constant plus linear'.",
+ ),
 }
